@@ -15,6 +15,7 @@ RULE = ('explicit-state BFS per past-time formula: one transition = one real upd
         'invariant on every transition: update() value == reference rho at the last sample == rtamt offline evaluate(); '
         'non-trivial transition: the top operator mattered (reference output differs from every operand and is not +-inf); '
         'in a third of the shards the (name, value) pairs of every second update() are listed in reverse order; '
+        'interface-aware layer: the same BFS under the four non-standard semantics with input/output declarations, over strict and non-strict predicates and a value alphabet that hits every threshold exactly (oracle: rho with the predicate rule of C06, and offline evaluate() under the same semantics); '
         'co-resident layer: two live monitors (same text, or one containing the other) stepped in every interleaving, with reset() of the second as an event - '
         'each update() must still equal the reference on that monitor\'s own samples')
 ASSUMPTIONS = ['value alphabet V3 for the first variable, V3 or {-1,2} for the second; formulas with <= 2 operators, duplicates, 3-chains',
@@ -126,6 +127,42 @@ class DtOnlineModel(object):
         elif self.delay:
             self.nontrivial += 1
         return None
+
+
+class IaOnlineModel(DtOnlineModel):
+    """the same transition system under an interface-aware semantics (set_var_io_type + semantics): the online monitor must still return,
+    at every step, the offline value of the SAME semantics - reference rho with the predicate hook of C06 and rtamt's own offline evaluate()"""
+
+    def __init__(self, f, values, semantics, io, **kw):
+        from . import c06
+        DtOnlineModel.__init__(self, f, values, build_kw={'semantics': semantics, 'io_types': io}, **kw)
+        self.hook = c06.make_hook(semantics, io)
+
+    def expected(self, hist):
+        n = len(hist)
+        try:
+            return refsem.ev(self.f, self.trace(hist), n, self.hook)[n - 1]
+        except refsem.DomainError:
+            return None
+
+
+IA_VALUES = ((-1.0, 0.0, 1.0), (0.0, 1.0))      # both thresholds (x ? 0, y ? 1) and x == y are hit exactly
+IA_CONFIGS = (('output_robustness', {'x': 'input', 'y': 'output'}), ('input_robustness', {'x': 'output', 'y': 'input'}),
+              ('output_robustness', {'x': 'input', 'y': 'input'}), ('input_vacuity', {'x': 'output', 'y': 'output'}),
+              ('output_vacuity', {'x': 'input', 'y': 'output'}), ('input_robustness', {'x': 'input', 'y': 'output'}))
+
+
+def ia_set(tier):
+    """one-operator past formulas (and a few two-operator ones) over strict and non-strict predicates on x only, y only and both"""
+    GT, LT, NE = ('pred', '>', F.X, F.C0), ('pred', '<', F.Y, F.C1), ('pred', '!==', F.X, F.Y)
+    MIX = ('pred', '>', ('+', F.X, F.Y), F.C1)
+    U = F.unary_ops(F.I_QUICK, ops=PAST_U)
+    B = F.binary_ops(F.I_QUICK, ops=PAST_B, unless=False)
+    fs = list(F.F(1, U, B, [(GT, LT, GT), (NE, F.PX, NE), (F.PX, F.PY, MIX), (LT, MIX, F.PX)]))
+    fs += [('and', ('once', (0, 1), GT), ('or', MIX, ('historically', None, LT))), ('since', None, ('not', NE), ('prev', GT)),
+           ('implies', ('rise', GT), ('once', (1, 2), LT)), ('and', ('pred', '>=', ('prev', F.X), ('prev', F.Y)), LT)]
+    out = list(dict.fromkeys(fs))
+    return out[::2] if tier == 'quick' else out
 
 
 def dup_formulas():
@@ -292,6 +329,8 @@ def shards(tier):
     out += [{'formulas': [F.to_json(f) for f in ln[i:i + 4]], 'longnames': True} for i in range(0, len(ln), 4)]
     its = int_set()
     out += [{'formulas': [F.to_json(f) for f in its[i:i + 6]], 'ints': True} for i in range(0, len(its), 6)]
+    ia = ia_set(tier)
+    out += [{'formulas': [F.to_json(f) for f in ia[i:i + 6]], 'ia': i // 6} for i in range(0, len(ia), 6)]
     cs = coresident_set(tier)
     out += [{'coresident': [(F.to_json(f), F.to_json(g)) for f, g in cs[i:i + 2]]} for i in range(0, len(cs), 2)]
     return out
@@ -443,6 +482,14 @@ def run_shard(shard, tier, res):
             model.exact = True
             extra = {'exact': True}
             p = dict(values=BIG_VALUES, maxdepth=5, max_transitions=400 if tier == 'quick' else 4000, validate='first')
+        if 'ia' in shard:
+            k = (shard['ia'] + res.formulas) % len(IA_CONFIGS)
+            sem, io = IA_CONFIGS[k]
+            io = {v: t for v, t in io.items() if v in F.fvars(f)}
+            model = IaOnlineModel(f, IA_VALUES, sem, io)
+            extra = {'ia': [sem, io]}
+            p = dict(values=IA_VALUES, maxdepth=5, max_transitions=500 if tier == 'quick' else 5000, validate='first')
+            res.flags['interface_aware_searches'] += 1
         if len(F.fvars(f)) >= 2 and (shard.get('ints') or shard.get('longnames') or shard.get('alternate')) and model is None:
             model = DtOnlineModel(f, p['values'])
             model.alternate = True
@@ -472,8 +519,11 @@ def check_case(case):
     if case.get('coresident'):
         return check_coresident(case)
     f = F.from_json(case['formula'])
-    m = DtOnlineModel(f, (F.V3,), text=case['spec'], variables=case['vars'], pastify=case.get('pastify', False),
-                      delay=case.get('delay', 0), subspecs=case.get('subspecs', ()), consts=[tuple(c) for c in case.get('consts', ())])
+    if case.get('ia'):
+        m = IaOnlineModel(f, IA_VALUES, case['ia'][0], case['ia'][1])
+    else:
+        m = DtOnlineModel(f, (F.V3,), text=case['spec'], variables=case['vars'], pastify=case.get('pastify', False),
+                          delay=case.get('delay', 0), subspecs=case.get('subspecs', ()), consts=[tuple(c) for c in case.get('consts', ())])
     m.exact = bool(case.get('exact'))
     m.alternate = bool(case.get('alternate'))
     obj = m.fresh()
